@@ -300,4 +300,4 @@ LEVEL_TEXT = ("contract-based, partial (sequential core): exact event mapping of
               "exhaustive peer/ARTIM closure of the real transition table, ARTIM expiry reachability through the real Timer with an "
               "adversarial clock. Interleavings of local-user events and liveness are not decided. One arbitrary iteration of DULServiceProvider.run_reactor: ARTIM first (Evt18), one source and at most one action per iteration, failure ends the provider with an A-ABORT.")
 LEVEL_NOTE = "level 'other': see not_decided; one open known finding (ARTIM stopped after expiry by AE-6)."
-TECHNIQUE = "deductive: effect-trace contract + real Timer under an adversarial clock (AST->VC, z3 LRA) + exhaustive table/AST scans"
+TECHNIQUE = 'deductive: effect-trace contracts (_process_recv_primitive, one arbitrary reactor iteration, _is_transport_event) + real Timer under an adversarial clock (AST->VC, z3 LRA) + exhaustive table/AST scans + re-proved action (C04) and receive-path (C02) contracts the ARTIM/no-crash argument rests on'
